@@ -94,6 +94,9 @@ func (d *Decls) typeID(t types.Type) int {
 func typeKeyName(t types.Type) string {
 	s := types.TypeString(t, func(p *types.Package) string {
 		path := p.Path()
+		if strings.HasPrefix(path, "internal/") || strings.Contains(path, "/internal/") || strings.HasPrefix(path, "vendor/") {
+			return strings.ReplaceAll(path, "/", "_")
+		}
 		if i := strings.LastIndex(path, "/"); i >= 0 {
 			path = path[i+1:]
 		}
